@@ -6,7 +6,7 @@ from ..absstore import Abs
 from ..gen import ev_tok, AUTHORS
 from ..conc import forced, STORE_POINTS
 
-THEOREMS = ['bytes_stable', 'refs_stable_no_growth', 'refs_stable_iff', 'growth_may_move_witness']
+THEOREMS = ['bytes_stable', 'refs_stable_no_growth', 'refs_stable_iff', 'growth_may_move_witness', 'written_region_survives_store']
 
 
 def run():
